@@ -10,8 +10,8 @@ import (
 // C21 — waveform step periods and the noise generator's sequence.
 
 type c21Case struct {
-	Ch   int `json:"ch"`   // 1,2,3 (frequency f) or 4 (NR43 value f) or 5/6 (LFSR sequence, width 15/7)
-	F    int `json:"f"`
+	Ch    int `json:"ch"` // 1,2,3 (frequency f) or 4 (NR43 value f) or 5/6 (LFSR sequence, width 15/7)
+	F     int `json:"f"`
 	Steps int `json:"steps"`
 }
 
@@ -123,6 +123,123 @@ func c21Check(l *explore.Local, _ struct{}, c c21Case) *explore.Fail {
 	return nil
 }
 
+// ---- the frequency changes while the channel runs ---------------------------------------------
+
+// c21Change: channel Ch is triggered at F0; then either the sweep unit (NR10, channel 1) or a register
+// write without trigger (NRx3 / NRx4 low bits, K machine cycles after a waveform step) changes the
+// frequency. The current frequency is read through the hook; after every change the step in flight and
+// the one after it are not judged (whether the running period is cut short is a convention), then the
+// steps must again fit one step per 4(2048-f) (channel 3: 2(2048-f)) clock cycles for the NEW f.
+type c21Change struct {
+	Ch     int   `json:"ch"`
+	F0     int   `json:"f0"`
+	NR10   uint8 `json:"nr10,omitempty"`
+	F1     int   `json:"f1,omitempty"` // register change (-1: none, sweep only)
+	K      int   `json:"k,omitempty"`
+	Cycles int   `json:"cycles"`
+}
+
+func c21ChangeCheck(l *explore.Local, _ struct{}, c c21Change) *explore.Fail {
+	m := machine.New(machine.ROMOnly(), machine.Opts{})
+	w := m.Map.Write
+	w(0xff26, 0x00)
+	w(0xff26, 0x80)
+	lo3, hi4 := [4]uint16{0, 0xff13, 0xff18, 0xff1d}[c.Ch], [4]uint16{0, 0xff14, 0xff19, 0xff1e}[c.Ch]
+	switch c.Ch {
+	case 1:
+		w(0xff10, c.NR10)
+		w(0xff12, 0xf0)
+	case 2:
+		w(0xff17, 0xf0)
+	case 3:
+		w(0xff1a, 0x80)
+		w(0xff1c, 0x20)
+	}
+	w(lo3, uint8(c.F0))
+	w(hi4, 0x80|uint8(c.F0>>8))
+	mod, mul := 8, 4
+	if c.Ch == 3 {
+		mod, mul = 32, 2
+	}
+	obs := func() (pos, f int, on bool) {
+		st := m.A.VGet()
+		return int([3]uint8{st.Duty1, st.Duty2, st.WavePos}[c.Ch-1]), int(st.Freq[c.Ch-1]), st.Enabled[c.Ch-1]
+	}
+	prev, curF, _ := obs()
+	if curF != c.F0 {
+		return explore.Failf("harness: the frequency hook does not show the triggered frequency", "f0=%03x hook=%03x", c.F0, curF)
+	}
+	skip := 1 // the first step after the trigger: its delay is a convention
+	var lo, hi, steps, n0 int
+	open := false
+	changes := 0
+	written := c.F1 < 0
+	sinceStep := -1
+	for n := 1; n <= c.Cycles; n++ {
+		if !written && sinceStep == c.K {
+			w(lo3, uint8(c.F1))
+			if c.F1>>8 != c.F0>>8 {
+				w(hi4, uint8(c.F1>>8))
+			}
+			written = true
+		}
+		m.A.EndMachineCycle()
+		l.Trans(1)
+		pos, f, on := obs()
+		if !on {
+			break // switched off (sweep overflow): nothing more to time
+		}
+		d := ((pos-prev)%mod + mod) % mod
+		prev = pos
+		if sinceStep >= 0 {
+			sinceStep++
+		}
+		if d > 0 && sinceStep < 0 {
+			sinceStep = 0
+		} else if d > 0 {
+			sinceStep = 0
+		}
+		if f != curF {
+			curF = f
+			changes++
+			open = false
+			skip = 2
+			if d > 0 {
+				skip = 3 // the change and a step fall in the same cycle: which period that step started is not fixed
+			}
+		}
+		period := mul * (2048 - curF)
+		if d > 0 && !open {
+			skip -= d
+			if skip <= 0 {
+				// this step is the origin of a new window: its true time is 4*n0 + phi with phi in (-4, 0]
+				open, lo, hi, steps, n0 = true, -4, 0, 0, n
+			}
+			continue
+		}
+		if !open {
+			continue
+		}
+		steps += d
+		// S steps by the end of cycle n  <=>  phi + S*P <= el  and  phi + (S+1)*P > el, with el = 4(n-n0)
+		el := 4 * (n - n0)
+		if a := el - (steps+1)*period; a > lo {
+			lo = a // exclusive
+		}
+		if b := el - steps*period; b < hi {
+			hi = b // inclusive
+		}
+		if lo >= hi {
+			return explore.Failf(fmt.Sprintf("channel %d does not step at the period of its current frequency after the frequency changed", c.Ch),
+				"ch%d f0=%03x nr10=%02x f1=%03x k=%d: current frequency %03x (change number %d): %d steps in the %d machine cycles after a step, one step per %d clock cycles expected",
+				c.Ch, c.F0, c.NR10, c.F1, c.K, curF, changes, steps, n-n0, period)
+		}
+	}
+	l.Eval(1)
+	l.Outcome(uint64(changes)<<32 | uint64(curF)<<8 | uint64(c.Ch))
+	return nil
+}
+
 // c21LFSR: at the fastest clock (NR43 = 00 / 08) the output bit must have minimal period
 // 32,767 / 127 and be (a rotation of) the documented sequence.
 func c21LFSR(l *explore.Local, c c21Case) *explore.Fail {
@@ -205,7 +322,7 @@ func c21LFSR(l *explore.Local, c c21Case) *explore.Fail {
 func init() {
 	register("C21", "model_checking", func(c *Ctx) {
 		if c.R != nil {
-			c.R.Rule = "waveform positions are read (hook) after every machine cycle: for channels 1-3 and every enumerated 11-bit frequency f the cumulative number of duty/wave steps after N machine cycles must equal floor((4N+phi)/P) for one phase phi and P = 4(2048-f) (2(2048-f) for channel 3) over 24 steps; for channel 4 and every NR43 value with s <= 13 the LFSR must step every d(r)*2^s clock cycles over 6 steps; at the fastest clock the output bit sequence over 3 periods must have minimal period 32,767 (15-bit) / 127 (7-bit) and be a rotation of the documented LFSR sequence"
+			c.R.Rule = "waveform positions are read (hook) after every machine cycle: for channels 1-3 and every enumerated 11-bit frequency f the cumulative number of duty/wave steps after N machine cycles must equal floor((4N+phi)/P) for one phase phi and P = 4(2048-f) (2(2048-f) for channel 3) over 24 steps; for channel 4 and every NR43 value with s <= 13 the LFSR must step every d(r)*2^s clock cycles over 6 steps; when the frequency changes while a channel runs (channel 1 sweep settings; NRx3/NRx4 rewritten without a trigger at 8 offsets within a period) the steps that follow must again be one per 4(2048-f) clock cycles for the new f (current f read through the hook; the period in flight is not judged); at the fastest clock the output bit sequence over 3 periods must have minimal period 32,767 (15-bit) / 127 (7-bit) and be a rotation of the documented LFSR sequence"
 			c.R.Assumptions = []string{"quick: all f with at most 2 bits set or at most 2 bits clear plus neighbours of 0x400 (the thorough tier enumerates all 2,048)", "the phase of each generator after a trigger is a convention (calibrated)"}
 		}
 		explore.Product(c.R, "step-periods", explore.PartOpt{Bound: "24 waveform steps (6 LFSR steps) per configuration", Domain: "channels 1-3 x f; channel 4 x NR43 with s<=13; LFSR sequences"},
@@ -242,5 +359,31 @@ func init() {
 				yield(c21Case{Ch: 5})
 				yield(c21Case{Ch: 6})
 			}, func() struct{} { return struct{}{} }, c21Check)
+		explore.Product(c.R, "frequency-changes", explore.PartOpt{Bound: "sweep: 60,000 machine cycles (7 sweep clocks); register change: 12 periods", Domain: "channel 1 sweep: NR10 in 12 period/direction/shift settings x 6 start frequencies; channels 1-3: 6 (f0,f1) pairs x register write at 8 offsets within a period"},
+			func(yield func(c21Change) bool) {
+				for _, nr10 := range []uint8{0x11, 0x12, 0x17, 0x19, 0x1a, 0x1f, 0x21, 0x2a, 0x32, 0x3b, 0x71, 0x79} {
+					for _, f0 := range []int{0x100, 0x400, 0x555, 0x700, 0x7c0, 0x7f0} {
+						if !yield(c21Change{Ch: 1, F0: f0, NR10: nr10, F1: -1, Cycles: 60000}) {
+							return
+						}
+					}
+				}
+				for ch := 1; ch <= 3; ch++ {
+					for _, ff := range [][2]int{{0x700, 0x780}, {0x780, 0x700}, {0x7f0, 0x600}, {0x6ff, 0x700}, {0x7fe, 0x7ff}, {0x400, 0x7c0}} {
+						p := 2048 - ff[0]
+						if ch == 3 {
+							p /= 2
+						}
+						for _, k := range []int{0, 1, 2, 3, p / 2, p - 3, p - 2, p - 1} {
+							if k < 0 {
+								continue
+							}
+							if !yield(c21Change{Ch: ch, F0: ff[0], F1: ff[1], K: k, Cycles: 14 * 2048}) {
+								return
+							}
+						}
+					}
+				}
+			}, func() struct{} { return struct{}{} }, c21ChangeCheck)
 	})
 }
